@@ -60,7 +60,7 @@ def apply_substitution(tree, mutant):
     text = open(path).read()
     count = text.count(mutant["old"])
     if count != mutant.get("count", 1):
-        raise SystemExit(f"mutant {mutant['id']}: pattern occurs {count} times in {mutant['file']}")
+        raise LookupError(f"mutant {mutant['id']}: pattern occurs {count} times in {mutant['file']}")
     text = text.replace(mutant["old"], mutant["new"])
     open(path, "w").write(text)
 
@@ -69,7 +69,10 @@ def run_mutant(mutant, tier):
     rows = []
     tree = scratch_copy()
     try:
-        apply_substitution(tree, mutant)
+        try:
+            apply_substitution(tree, mutant)
+        except LookupError as exc:
+            return [(mutant["id"], ",".join(mutant["props"]), "stale-pattern", 0, str(exc))]
         for prop in mutant["props"]:
             code, out, wall = run_check(tree, prop, tier)
             clause = ""
